@@ -134,6 +134,8 @@ def build(names, shape, traits, mode, with_attrs, const_name=None):
                 attrs.append(sx.a_debug(sx.m_list(sx.gargs(ignore=True))))
             fs.append(sx.field(ftypes[i % len(ftypes)], name=names['fields'][i] if kind == 'named' else None, attrs=attrs))
         return sx.named(fs) if kind == 'named' else (sx.unnamed(fs) if kind == 'tuple' else sx.UNIT)
+    if not is_enum and vs[0][0] == 'unit':
+        params = []                 # a unit struct cannot declare parameters it does not use
     gen = sx.generics(params)
     if is_enum:
         vars_ = []
@@ -166,7 +168,8 @@ class C13(Prop):
         return 3 if tier == 'quick' else 48
 
     def plans(self, tier, rng):
-        shapes = [(False, [('named', 4)]), (False, [('tuple', 3)]), (True, [('named', 3), ('tuple', 1), ('unit', 0)])]
+        shapes = [(False, [('named', 4)]), (False, [('tuple', 3)]), (True, [('named', 3), ('tuple', 1), ('unit', 0)]),
+                  (False, [('unit', 0)])]
         out = []
         gid = 0
         for traits in TRAIT_SETS + STRUCT_SETS:
@@ -174,6 +177,8 @@ class C13(Prop):
                 if traits in STRUCT_SETS and shape[0]:
                     continue
                 if 'Deref' in traits:
+                    if shape[1][0][0] == 'unit':
+                        continue
                     shape = (False, [(shape[1][0][0], 1)])
                 for with_attrs in (0, 1, 2, 3, 4):
                     if with_attrs and traits in STRUCT_SETS:
@@ -185,6 +190,10 @@ class C13(Prop):
                     rens = [NEUTRAL]
                     for j in range(self.n_ren(tier)):
                         tn = rng.sample(TYPE_NAMES, 6)
+                        if j == 1:
+                            # the second renaming of every group: raw keywords as the type's and the first variant's name
+                            tn = ['r#type' if tn[1] != 'r#type' else 'r#match', tn[1], 'r#fn' if tn[1] != 'r#fn' else 'r#loop'] + \
+                                [x for x in tn[3:] if x not in ('r#type', 'r#fn')] + ['Aq', 'Bq']
                         # the first renaming of every group uses the lifetime name the generator once used itself
                         rens.append(dict(ty=tn[0], tp=tn[1], lt='a' if j == 0 else rng.choice(LIFETIMES), cp=rng.choice(CONST_NAMES),
                                          fields=rng.sample(FIELD_NAMES, 4), variants=tn[2:5],
@@ -218,7 +227,8 @@ class C13(Prop):
         if any(t in tr for t in ('Add', 'SubAssign', 'Not', 'BitXor', 'ShlAssign', 'Deref')):
             return 'pub fn run() {}'
         cp = m['const_name'] or n['cp']
-        ty = '%s<\'static, u16, 2>' % n['ty']
+        unit_struct = (not is_enum) and vs[0][0] == 'unit'
+        ty = n['ty'] if unit_struct else '%s<\'static, u16, 2>' % n['ty']
         vals = []
         fvals = [['&7u8', '&8u8'], ['5u16', '6u16'], ['[0u8, 1]', '[2u8, 0]'], ['0u8', '1u8', '3u8']]
         for vi, (kind, k) in enumerate(vs):
@@ -243,6 +253,15 @@ class C13(Prop):
             src.append('    let mut s = ::std::string::String::new(); for a in &vs { s.push(if ::core::clone::Clone::clone(a) == *a {\'T\'} else {\'F\'}); } println!("%d\\tclone\\t{}", s);' % cid)
         if 'Default' in tr and 'PartialEq' in tr:
             src.append('    let d: %s = ::core::default::Default::default(); let mut s = ::std::string::String::new(); for a in &vs { s.push(if d == *a {\'T\'} else {\'F\'}); } println!("%d\\tdefault\\t{}", s);' % (ty, cid))
+        if 'Debug' in tr:
+            # `{:?}` starts with the name of the type / the variant as written, without the `r#` of a raw identifier
+            unraw = lambda x: x[2:] if x.startswith('r#') else x
+            exp = [unraw(n['variants'][vi]) if is_enum else unraw(n['ty']) for vi, (kind, k) in enumerate(vs)
+                   for _ in list(itertools.product(*[fvals[i % 4] for i in range(k)]))[:5]]
+            src.append('    let names: &[&str] = &[%s]; let mut s = ::std::string::String::new(); '
+                       'for (a, nm) in vs.iter().zip(names) { let t = format!("{:?}", a); '
+                       's.push(if t.starts_with(nm) && !t[nm.len()..].starts_with(|c: char| c.is_alphanumeric() || c == \'_\' || c == \'#\') {\'T\'} else {\'F\'}); } '
+                       'println!("%d\\tdebug\\t{}", s);' % (', '.join('"%s"' % e for e in exp), cid))
         src.append('    let _ = &vs; }')
         return '\n'.join(src)
 
